@@ -14,10 +14,22 @@ import (
 	"verif/engine/gosx"
 )
 
-const (
-	repoDir  = "/repo"
-	verifDir = "/verif"
+const verifDir = "/verif"
+
+// repoDir is the tree under test and outDir where evidence/, replays/ and .work/ go.  Both are fixed (/repo, /verif)
+// for every registered command; the environment overrides exist only so that tools/seedcheck.sh can run a check
+// against a scratch worktree carrying a seeded change without touching /repo or the committed evidence.
+var (
+	repoDir = envOr("GOSX_REPO", "/repo")
+	outDir  = envOr("GOSX_OUT", verifDir)
 )
+
+func envOr(k, d string) string {
+	if v := os.Getenv(k); v != "" {
+		return v
+	}
+	return d
+}
 
 // Ctx is the state of one check run.
 type Ctx struct {
@@ -98,7 +110,7 @@ func harnessOverlay(extra map[string][]byte) map[string][]byte {
 func newCtx(id, tier string, seed int64, level string, extra map[string][]byte) *Ctx {
 	c := &Ctx{ID: id, Tier: tier, Seed: seed, Level: level, T0: time.Now(), cov: map[string]interface{}{}, kf: loadKnown()}
 	cleanStaleWork()
-	c.Work = filepath.Join(verifDir, ".work", fmt.Sprintf("%s-%d", id, os.Getpid()))
+	c.Work = filepath.Join(outDir, ".work", fmt.Sprintf("%s-%d", id, os.Getpid()))
 	os.RemoveAll(c.Work)
 	if err := os.MkdirAll(c.Work, 0o755); err != nil {
 		fatal(err)
@@ -136,7 +148,7 @@ func (c *Ctx) Close() {
 	}
 	os.RemoveAll(c.Work)
 	// remove the .work dir itself when empty
-	os.Remove(filepath.Join(verifDir, ".work"))
+	os.Remove(filepath.Join(outDir, ".work"))
 }
 
 func fatal(err error) {
@@ -191,7 +203,7 @@ func (c *Ctx) AddViolation(v Violation) {
 			return
 		}
 	}
-	dir := filepath.Join(verifDir, "replays", c.ID)
+	dir := filepath.Join(outDir, "replays", c.ID)
 	os.MkdirAll(dir, 0o755)
 	h := sha1.Sum([]byte(v.Key))
 	v.Path = filepath.Join(dir, fmt.Sprintf("%x.json", h[:6]))
@@ -285,9 +297,9 @@ func (c *Ctx) Finish(inconclusiveAll bool) int {
 		"property_id": c.ID, "tier": c.Tier, "seed": c.Seed, "level": c.Level, "coverage": c.cov,
 		"assumptions": c.assume, "wall_s": time.Since(c.T0).Seconds(), "violations": len(c.violations),
 	}
-	os.MkdirAll(filepath.Join(verifDir, "evidence"), 0o755)
+	os.MkdirAll(filepath.Join(outDir, "evidence"), 0o755)
 	b, _ := json.MarshalIndent(ev, "", " ")
-	if err := os.WriteFile(filepath.Join(verifDir, "evidence", c.ID+".json"), b, 0o644); err != nil {
+	if err := os.WriteFile(filepath.Join(outDir, "evidence", c.ID+".json"), b, 0o644); err != nil {
 		fatal(err)
 	}
 	for _, k := range kn {
@@ -405,7 +417,7 @@ func (a *Agg) Into(c *Ctx, prefix string) {
 
 // cleanStaleWork removes scratch directories left behind by runs that were killed.
 func cleanStaleWork() {
-	ents, _ := os.ReadDir(filepath.Join(verifDir, ".work"))
+	ents, _ := os.ReadDir(filepath.Join(outDir, ".work"))
 	for _, e := range ents {
 		name := e.Name()
 		i := strings.LastIndex(name, "-")
@@ -418,7 +430,7 @@ func cleanStaleWork() {
 			continue
 		}
 		if _, err := os.Stat(fmt.Sprintf("/proc/%d", pid)); err != nil {
-			os.RemoveAll(filepath.Join(verifDir, ".work", name))
+			os.RemoveAll(filepath.Join(outDir, ".work", name))
 		}
 	}
 }
